@@ -120,7 +120,7 @@ var clauseKeywords = map[string]bool{
 	"trusted": true, "bounded": true, "at": true, "frame": true, "inline": true, "pure": true,
 	"balanced": true, "order": true, "noescape": true, "nowrite": true, "fresh": true, "reveal": true,
 	"assume": true, "panics": true, "params": true, "ghost": true, "effects": true, "transfers": true,
-	"havoc": true, "calls": true, "nocall": true, "returns": true, "abstract": true, "note": true, "guarantees": true,
+	"havoc": true, "calls": true, "nocall": true, "returns": true, "abstract": true, "note": true, "guarantees": true, "defines": true,
 }
 
 var labelRe = regexp.MustCompile(`^\[([A-Za-z0-9_\-./<>=]+)\]\s*`)
